@@ -263,7 +263,7 @@ def _make_p1b(detail):
 
 
 # --------------------------------------------------------------------------------------------- P2 reproducibility
-HISTORIES = ["same-object-twice", "fresh-objects", "after-other-pipeline", "shared-orchestrator-other-config", "same-object-after-failing-run", "shared-orchestrator-other-detail", "same-object-untraced-first"]
+HISTORIES = ["same-object-twice", "fresh-objects", "after-other-pipeline", "shared-orchestrator-other-config", "same-object-after-failing-run", "shared-orchestrator-other-detail", "same-object-untraced-first", "after-dead-run-with-run-metadata"]
 _VOLATILE_TOP = ("run_id", "timestamp", "seq")
 
 
@@ -370,6 +370,15 @@ def _p2_scenario(cfg_name: str, hist: int, detail: str):
         orch = LocalSemantivaOrchestrator()
         px = os.path.join(base, "r-%s.jsonl" % uuid.uuid4().hex[:10])
         run(Pipeline([dict(n) for n in cfg], logger=lib.QUIET, trace=JsonlTraceDriver(px, detail=other), orchestrator=orch))
+        d1, p1 = new_driver()
+        run(Pipeline([dict(n) for n in cfg], logger=lib.QUIET, trace=d1, orchestrator=orch))
+        got = read(p1)
+    elif hname == "after-dead-run-with-run-metadata":
+        # on the same orchestrator an earlier run that carried run-space metadata died while its nodes were being built
+        orch = LocalSemantivaOrchestrator()
+        dead = Pipeline([{"processor": lib.OpAddDef, "parameters": {}}, {"processor": lib.OpAddDef, "parameters": {"bogus": 1}}], logger=lib.QUIET, trace=new_driver()[0], orchestrator=orch)
+        dead.set_run_metadata({"run_space_launch_id": "L-dead", "run_space_attempt": 3, "run_space_index": 7, "run_space_context": {"k": 1}})
+        run(dead)
         d1, p1 = new_driver()
         run(Pipeline([dict(n) for n in cfg], logger=lib.QUIET, trace=d1, orchestrator=orch))
         got = read(p1)
